@@ -383,6 +383,17 @@ def run_paths(acc, tree, cfg, depth, i, n, counter):
         if bad:
             acc.violation('C14:%s:%s:%s' % (bad[0], feat, mode), '%s; request %r (segments %r) config %r'
                           % (bad[1], w.path_for(segs), segs, cfg), {'kind': 'path', 'cfg': list(cfg), 'segs': segs})
+        elif segs in seqs and not w.path_for(segs).startswith('//'):
+            # the named files once more, the request line going through the development server's own parsing
+            res2 = wsgi.call(w.app, None, environ=wsgi.dev_server_environ(w.path_for(segs), 'GET'))
+            acc.transitions += 1
+            acc.validated += 1
+            bad2 = judge(w, segs, res2)
+            if bad2 or res2.code != res.code:
+                acc.violation('C14:dev-server:%s:%s' % ((bad2 or ('status-differs',))[0], feat), '%s; request %r through the development '
+                              'server parsing answers %s, through a plain environ %s; config %r'
+                              % ((bad2 or ('', ''))[1], w.path_for(segs), res2.status, res.status, cfg),
+                              {'kind': 'path', 'cfg': list(cfg), 'segs': segs, 'dev_server': True})
         if counter[0] % 50021 == i:
             acc.sample({'config': list(cfg), 'segments': segs, 'status': res.code})
 
@@ -589,7 +600,10 @@ def _replay(case):
         cfg = tuple(case['cfg'])
         w = World(tree, *cfg)
         if case['kind'] == 'path':
-            res = wsgi.call(w.app, w.path_for(case['segs']), 'GET')
+            if case.get('dev_server'):
+                res = wsgi.call(w.app, None, environ=wsgi.dev_server_environ(w.path_for(case['segs']), 'GET'))
+            else:
+                res = wsgi.call(w.app, w.path_for(case['segs']), 'GET')
             bad = judge(w, case['segs'], res)
             return (bad is None), (bad[1] if bad else 'ok')
         if case['kind'] == 'conditional':
